@@ -7,10 +7,13 @@ set -u
 PATCH="$(readlink -f "$1")"; TIER="${2:-quick}"
 HERE="$(cd "$(dirname "$0")/.." && pwd)"
 WT=$(mktemp -d /tmp/ssecheck-eval-XXXXXX); EV=$(mktemp -d /tmp/ssecheck-evalverif-XXXXXX)
-git -C /repo worktree add -q --detach "$WT/repo" HEAD || exit 2
+BASE="${MUT_BASE:-HEAD}"
+git -C /repo worktree add -q --detach "$WT/repo" "$BASE" || exit 2
 cleanup() { git -C /repo worktree remove --force "$WT/repo" 2>/dev/null; rm -rf "$WT" "$EV"; }
 trap cleanup EXIT
-if ! git -C "$WT/repo" apply "$PATCH"; then echo "PATCH DOES NOT APPLY"; exit 3; fi
+if ! git -C "$WT/repo" apply "$PATCH" 2>/dev/null; then
+  if ! git -C "$WT/repo" apply -3 "$PATCH" 2>/dev/null; then echo "PATCH DOES NOT APPLY to $BASE (set MUT_BASE=<commit> to evaluate against its own base)"; exit 3; fi
+fi
 cp "$HERE/KNOWN_FINDINGS.txt" "$EV/" 2>/dev/null
 export GOFLAGS=-mod=mod GOPROXY=off GOSUMDB=off GOTOOLCHAIN=local CGO_ENABLED=0; unset GOWORK
 ( cd "$WT/repo" && go build ./... ) || { echo "MUTANT DOES NOT BUILD"; exit 4; }
